@@ -4,20 +4,26 @@ use std::path::PathBuf;
 pub mod c01;
 pub mod c02;
 pub mod c03;
+pub mod c04;
 pub mod c05;
 pub mod c08;
 pub mod c12;
+pub mod c13;
 pub mod c16;
+pub mod c19;
 
 pub fn dispatch(id: &str, tier: Tier, seed: u64, replay: Option<PathBuf>) -> i32 {
     match id {
         "C01" => run(&c01::C01, tier, seed, replay),
         "C02" => run(&c02::C02, tier, seed, replay),
         "C03" => run(&c03::C03, tier, seed, replay),
+        "C04" => run(&c04::C04, tier, seed, replay),
         "C05" => run(&c05::C05, tier, seed, replay),
         "C08" => run(&c08::C08, tier, seed, replay),
         "C12" => run(&c12::C12, tier, seed, replay),
+        "C13" => run(&c13::C13, tier, seed, replay),
         "C16" => run(&c16::C16, tier, seed, replay),
+        "C19" => run(&c19::C19, tier, seed, replay),
         _ => {
             eprintln!("vp: unknown property {}", id);
             2
